@@ -202,6 +202,19 @@ func c12ops(tier string) []c12op {
 			_, err := r.Start()
 			return fmt.Sprint(err != nil)
 		}},
+		c12op{"forkexec-userns-idmap-refused(zero-size extent)", func(e *c12env, nonce string) string {
+			r := &forkexec.Runner{Args: []string{probe("tree"), nonce, "-", "exit:0"}, Env: []string{}, Files: stdioNull(), CloneFlags: unix.CLONE_NEWUSER,
+				UIDMappings: []syscall.SysProcIDMap{{ContainerID: 0, HostID: 0, Size: 0}}, GIDMappings: []syscall.SysProcIDMap{{ContainerID: 0, HostID: 0, Size: 1}}}
+			_, err := r.Start()
+			return fmt.Sprint(err != nil)
+		}},
+		c12op{"forkexec-userns-idmap-refused(overlapping gid extents)", func(e *c12env, nonce string) string {
+			r := &forkexec.Runner{Args: []string{probe("tree"), nonce, "-", "exit:0"}, Env: []string{}, Files: stdioNull(), CloneFlags: unix.CLONE_NEWUSER,
+				UIDMappings: []syscall.SysProcIDMap{{ContainerID: 0, HostID: 0, Size: 1}},
+				GIDMappings: []syscall.SysProcIDMap{{ContainerID: 0, HostID: 0, Size: 2}, {ContainerID: 1, HostID: 5, Size: 1}}, GIDMappingsEnableSetgroups: true}
+			_, err := r.Start()
+			return fmt.Sprint(err != nil)
+		}},
 		c12op{"container-not-found", func(e *c12env, nonce string) string {
 			return statusName(e.c.Execve(context.Background(), execveParam([]string{"no-such-program", nonce})).Status)
 		}},
@@ -244,6 +257,10 @@ func c12ops(tier string) []c12op {
 	ops = append(ops,
 		c12op{"build-fails(init exits at once)", func(e *c12env, nonce string) string {
 			_, err := newContainer(func(b *container.Builder) { b.ExecFile = probe("burn") })
+			return fmt.Sprint(err != nil)
+		}},
+		c12op{"build-fails(temporary root cannot be created)", func(e *c12env, nonce string) string {
+			_, err := newContainer(func(b *container.Builder) { b.Root = "/nonexistent-" + nonce; b.TmpRoot = "r" })
 			return fmt.Sprint(err != nil)
 		}},
 		c12op{"build-fails(init never answers)", func(e *c12env, nonce string) string {
@@ -339,7 +356,7 @@ func init() {
 		}
 		spec := &mc.Spec{
 			Level: "exploration",
-			Rule: "explicit-state search over operation histories on one live environment plus the two other runners: operations = container runs of process trees (shapes with plain, signal-ignoring, double-forked, setsid, setpgid, outliving children, depth ≤ 3) ending by exit / fatal signal / cancellation with sync before / after exec, failing callbacks (also after the tree was built), launches failing before and after sync, open ok / mixed / empty, delete, symlink, reset, ping, build+destroy of a second environment, environments whose socket fails before Destroy (Build with an init that exits at once / never answers; init killed while idle or during a run, then Destroy), ptrace and namespace runs of trees with the same endings and failing launches. " +
+			Rule: "explicit-state search over operation histories on one live environment plus the two other runners: operations = container runs of process trees (shapes with plain, signal-ignoring, double-forked, setsid, setpgid, outliving children, depth ≤ 3) ending by exit / fatal signal / cancellation with sync before / after exec, failing callbacks (also after the tree was built), launches failing before and after sync, open ok / mixed / empty, delete, symlink, reset, ping, build+destroy of a second environment, environments whose socket fails before Destroy (Build with an init that exits at once / never answers / with a temporary root that cannot be created; init killed while idle or during a run, then Destroy), ptrace and namespace runs of trees with the same endings and failing launches. " +
 				"After every operation the residue vector (descriptor classes, children and goroutines of this process; descriptors and children of the container init; live program processes) must equal the baseline taken before the first operation; histories are extended only from states not seen before (canonical state = residue vector). " +
 				"non-trivial: the operation creates processes or fails; distinct = (history, residue vectors)",
 			Bound:       map[string]any{"history_depth": depth, "operations": len(ops)},
